@@ -789,8 +789,11 @@ def file_slice(ck, maxlen, seed):
     root = os.path.join(scratch_root(), 'files')
     os.makedirs(root, exist_ok=True)
     src, dst = os.path.join(root, 't.in'), os.path.join(root, 't.out')
-    picks = [DATASETS[(seed * 7 + k * 13) % len(DATASETS)] for k in range(4)] + [('v', 'v'), ('@B@', 'v')]
-    n = crlf = 0
+    # The output file is unlinked only when the template or the format changes: from the second data set on, the file is
+    # rendered over the output of the previous data set (a reconfigure with other values), and ('v','v') / ('w','w') / ('v','w')
+    # render to the same number of bytes, so nothing but the content tells the old output from the new one.
+    picks = [DATASETS[(seed * 7 + k * 13) % len(DATASETS)] for k in range(4)] + [('v', 'v'), ('w', 'w'), ('v', 'w'), ('@B@', 'v')]
+    n = crlf = over = 0
     for text, tup in TEMPLATES:
         if len(tup) > maxlen:
             break
@@ -798,16 +801,21 @@ def file_slice(ck, maxlen, seed):
             f.write(text.encode('utf-8'))
         lines = split_lines(text)
         for fmt in FORMATS:
+            if os.path.exists(dst):
+                os.unlink(dst)
+            earlier = []
             for (a, b) in picks:
                 if self_referential(text, fmt, a, b) and HANG_CLASS_LIVE:
                     continue
                 n += 1
-                rep = {'part': 'file', 'template': text, 'format': fmt, 'data': {'A': a, 'B': b}}
+                rep = {'part': 'file', 'template': text, 'format': fmt, 'data': {'A': a, 'B': b}, 'earlier_data': list(earlier)}
                 exp = run_real(lines, cd_for(a, b), fmt)
                 if exp[0] == 'hang':
                     continue        # reported by the enumeration
-                if os.path.exists(dst):
-                    os.unlink(dst)
+                if exp[0] != 'ok' and os.path.exists(dst):
+                    os.unlink(dst)  # a refused rendering is not required to leave the previous output alone
+                earlier.append([a, b])
+                over += os.path.exists(dst)
                 signal.alarm(HANG_S)
                 try:
                     missing, _ = do_conf_file(src, dst, cd_for(a, b), fmt)
@@ -830,7 +838,8 @@ def file_slice(ck, maxlen, seed):
                 if got[:len(want)] != want if want[0] == 'ok' else got[0] != want[0]:
                     ck.violation('C14:file:%s' % fmt, 'do_conf_file differs from do_conf_str on %r: %r vs %r' % (text, got, want),
                                  dict(rep, expected=repr(want), observed=repr(got)))
-    ck.part('file_slice', cases=n, max_fragments=maxlen, outputs_with_crlf=crlf, data_sets=[list(map(repr, p)) for p in picks])
+    ck.require(over > 0, 'file slice never rendered over an existing output')
+    ck.part('file_slice', cases=n, rendered_over_previous_output=over, max_fragments=maxlen, outputs_with_crlf=crlf, data_sets=[list(map(repr, p)) for p in picks])
     ck.require(crlf > 0 or ck.n_viol > 0, 'file slice never produced a CRLF output')
     return n
 
@@ -1110,6 +1119,12 @@ def replay(ck):
         src, dst = os.path.join(root, 't.in'), os.path.join(root, 't.out')
         open(src, 'wb').write(text.encode('utf-8'))
         exp = run_real(split_lines(text), cd_for(a, b), fmt)
+        for (a0, b0) in d.get('earlier_data', []):
+            try:
+                do_conf_file(src, dst, cd_for(a0, b0), fmt)
+            except MesonException:
+                if os.path.exists(dst):
+                    os.unlink(dst)
         try:
             do_conf_file(src, dst, cd_for(a, b), fmt)
             got = open(dst, 'rb').read()
